@@ -87,6 +87,7 @@ type Opts struct {
 	CaseTwins                      bool // an uncalled method whose name differs only in case from a called one
 	Ctors                          bool // some classes declare a constructor (a function named like the class) that makes calls
 	PlatformLikePkgs               bool // package names that merely start like platform packages (sunrise.billing, javalin.web, ...)
+	CallerPkgReceivers             bool // some calls are recorded with the CALLER's package and the callee's simple class name (as for receivers declared with type arguments); same simple class names are planted in two packages
 	Inheritance                    bool // classes extend one another (chains of 2-4) and inherited methods are called through a subclass receiver
 	OddRunes                       bool // names may contain identifier-ignorable format characters (U+200C, U+00AD) and non-ASCII letters
 }
@@ -121,6 +122,12 @@ func Generate(r *run.Rand, o Opts) *Model {
 		}
 		if o.Quotes && r.Chance(1, 12) && !used[pk+"."+cn+"\"Q"] {
 			cn = cn + "\"Q" // a quote in a class name (the quantifier names quotes; matters for DI replacement)
+		}
+		if o.OddRunes && r.Chance(1, 12) {
+			// a class recorded with its type arguments (receivers declared as Vec<int> are recorded that way)
+			if alt := cn + r.Pick([]string{"<int>", "<T>", "<String,Long>"}); !used[pk+"."+alt] {
+				cn = alt
+			}
 		}
 		used[pk+"."+cn] = true
 		kind := "Class"
@@ -290,6 +297,29 @@ func Generate(r *run.Rand, o Opts) *Model {
 		if len(me.Calls) > 1 && r.Bool() {
 			i, j := r.Intn(len(me.Calls)), r.Intn(len(me.Calls))
 			me.Calls[i], me.Calls[j] = me.Calls[j], me.Calls[i]
+		}
+	}
+	if o.CallerPkgReceivers && nCls >= 3 {
+		// two classes of one simple name in different packages, both declaring one method name; callers in other
+		// packages call it through a receiver that is recorded with the caller's own package
+		a := m.Classes[r.Intn(nCls)]
+		for _, bcls := range m.Classes {
+			if bcls != a && bcls.Pkg != a.Pkg && len(a.Methods) > 0 {
+				if !used[bcls.Pkg+"."+a.Name] {
+					twin := &Class{Pkg: bcls.Pkg, Name: a.Name, Kind: a.Kind}
+					tm := &Method{Pkg: twin.Pkg, Class: twin.Name, Name: a.Methods[0].Name}
+					twin.Methods = append(twin.Methods, tm)
+					m.Classes = append(m.Classes, twin)
+					used[bcls.Pkg+"."+a.Name] = true
+					add(tm, ref(all[r.Intn(n)]))
+				}
+				break
+			}
+		}
+		for _, me := range all {
+			if me.Pkg != a.Pkg && len(a.Methods) > 0 && r.Chance(1, 3) {
+				add(me, CallRef{Pkg: me.Pkg, Class: a.Name, Name: a.Methods[0].Name})
+			}
 		}
 	}
 	if o.Inheritance && nCls >= 2 {
